@@ -563,6 +563,16 @@ func TestVerifC02(t *testing.T) {
 			c.Steps = append(c.Steps, c02Step{Kind: "apply", N: 1 << 20}, c02Step{Kind: "snapshot", CutAt: cut}, c02Step{Kind: "restore"})
 			rep.Obs("histories-ending-without-configured-expiration", 1)
 		}
+		if k%5 == 3 && !p.NoConfig {
+			// the history ends with a message of death that is the last word of its session; it
+			// is folded into a snapshot, the node restores it, snapshots again and restores that
+			c.Params.Tail = true
+			c.Params.TailForce = []int{9}
+			c.Params.MoD = true
+			c.Steps = append(c.Steps, c02Step{Kind: "apply", N: 1 << 20}, c02Step{Kind: "snapshot", CutAt: -1}, c02Step{Kind: "restore"},
+				c02Step{Kind: "snapshot", CutAt: 1 << 30}, c02Step{Kind: "restore"}, c02Step{Kind: "snapshot", CutAt: 1 << 30}, c02Step{Kind: "restart"})
+			rep.Obs("histories-ending-in-a-message-of-death", 1)
+		}
 		if k == 0 {
 			rep.Sample(map[string]interface{}{"seed": seed, "history_len": p.Len, "steps": c.Steps})
 		}
